@@ -1,6 +1,7 @@
 from pat import *
 from expr import fmt, walk
 from harness import Skip
+from guards import fmt_cond, SWAP
 from guards import decision_table, block_conditions
 from rules.ts import check_table
 from rules.common import eqcov_impl
@@ -215,6 +216,52 @@ def run(ctx):
     except Skip:
         pass
     ctx.floor(rule, 3)
+
+    # --- the client may refuse only what the constructor refuses (capacity guards agree)
+    rule = "R-C19.SIB.capacity"
+    try:
+        f = ctx.fn(rule, name="new", self_adt="vdaf::prio2::client::ClientMemory")
+        g = ctx.guards(f)
+        two_n = TWO_N(Arg(1))
+        conv2n = lambda e: Call("try_from", two_n)(e)
+        order = Call("generator_order")
+
+        def allowed(c):
+            if c[0] == "variant" and c[2] == "Err" and c[3] and conv2n(c[1]):
+                return "2n does not fit the field integer"
+            if c[0] == "rel":
+                op, a, bb = c[1], c[2], c[3]
+                if order(a):
+                    op, a, bb = SWAP[op], bb, a
+                if op == "Gt" and order(bb) and Field(conv2n, name="0", variant="Ok")(a):
+                    return "2n > generator_order()"
+            if c[0] == "truth" and c[2] is True and Call("map_or", conv2n, Lit(1))(c[1]) and c[1][2][2][0] == "closure":
+                cf = ctx.prog.by_did.get(c[1][2][2][3])
+                if cf is not None:
+                    cg = ctx.guards(cf)
+                    rds = [rd for rd in cg.retdefs if rd.expr is not None]
+                    if len(rds) == 1 and (Bin("Gt", Arg(2), order)(rds[0].expr) or Bin("Lt", order, Arg(2))(rds[0].expr)):
+                        return "2n does not fit, or 2n > generator_order()"
+            return None
+        refusing = [e for e in g.edges if e.leads and set(rd.kind for rd in e.leads) <= {"err"}]
+        # only the outermost refusing edges matter (an edge dominated by another refusing edge's target is already refused)
+        outer = [e for e in refusing if not any(o is not e and f.body.dominates(o.target, e.block) for o in refusing)]
+        n_ok = 0
+        for e in outer:
+            why = allowed(e.cond)
+            key = "%s:%s:refusal:%s" % (rule, f.id, fmt_cond(e.cond)[:120])
+            if why:
+                n_ok += 1
+                ctx.ok(rule, key, "client refuses when %s - as Prio2::new does" % why, loc="%s:%s" % (f.file, e.line))
+            else:
+                ctx.bad(rule, key, "ClientMemory::new refuses on a condition Prio2::new does not refuse on (a supported length "
+                                   "could not be sharded): %s" % fmt_cond(e.cond)[:200], loc="%s:%s" % (f.file, e.line))
+        if not outer:
+            ctx.ok(rule, "%s:%s:no-refusal" % (rule, f.id), "ClientMemory::new never refuses", loc=f.loc)
+        # non-Result refusals: no panic on the accepting path is introduced by an assert on the size
+    except Skip:
+        pass
+    ctx.floor(rule, 1)
 
     rule = "R-C19.S.codec"
     try:
